@@ -51,8 +51,8 @@ Qed.
 (** the hypotheses of [no_ghosts] hold on this sequence ... *)
 Example ex_ops_wf : ops_wf 10 false ex_lines ex_kittyw world_init ex_ops.
 Proof.
-  simpl. split; [exact ex_wf1|]. split; [|exact I].
-  exact ex_wf2.
+  simpl. split; [split; [exact ex_wf1|intro Hn; exfalso; apply Hn; reflexivity]|]. split; [|exact I].
+  split; [exact ex_wf2|]. exact (count_ok_after_redraw 10 false ex_lines world_init frame1 base0 frame2).
 Qed.
 
 (** ... and the run is what one expects: three views vanish, ONE delete by z-index, one
@@ -86,7 +86,8 @@ Definition step_unfixed (w : world) (o : sop) : world :=
     let new := render_row ex_lines (snd ds) V base in
     mk_world (snd ds) (Some new)
              (pexec false (w_term w) ([KSyncB] ++ fst ds ++ urwid_draw 10 false (w_sb w) new ++ [KSyncE]))
-  | OClear => w
+             [] (snd ds) 0 []
+  | _ => w
   end.
 
 (** three vanished views = three bumps = the same disguise: the image's rows are deleted
@@ -99,6 +100,71 @@ Example no_ghosts_refuted_before_fix :
   /\ length (plcs_of ex_lines frame2) = 6
   /\ wdis_get 0 (s_wdis (w_scr w)) = 0.
 Proof. split; [exact ex_ops_wf|]. vm_compute. repeat split; reflexivity. Qed.
+
+(** *** the public clear_images() API *)
+
+(** clear_images(now=True) between two redraws of a canvas whose image is untouched: the
+    delete-all goes to the terminal at once, the canvas disguise changes, so every image row
+    is written again; the same with the queued form and with clear_images(widget) *)
+Definition frame1b : list view := frame1.
+Definition wd0 : list (nat * wkind) := [(0, WKitty 1)].
+Lemma ex_wf11 : wf_redraw 10 false ex_lines ex_kittyw frame1 frame1.
+Proof.
+  constructor.
+  - intros v Hin. in_cases Hin; reflexivity.
+  - intros v Hin. in_cases Hin; reflexivity.
+  - intros v1 v2 H1 H2 _ _. in_cases H1; in_cases H2; split; reflexivity.
+  - intros v Hin _. in_cases Hin; discriminate.
+  - intros p Hin. vm_compute in Hin. in_cases Hin; vm_compute; tauto.
+  - intros p q Hp Hq Hne. vm_compute in Hp, Hq. in_cases Hp; in_cases Hq; try reflexivity; congruence.
+Qed.
+Lemma ex_wf_api : wf_api false ex_kittyw frame1 wd0.
+Proof.
+  constructor.
+  - intros x Hin. in_cases Hin; reflexivity.
+  - intros x Hin _. in_cases Hin; discriminate.
+  - intros x v Hx Hv _ _. in_cases Hx; in_cases Hv; split; reflexivity.
+  - intros v Hin. in_cases Hin; reflexivity.
+Qed.
+Lemma ex_wf_api0 : wf_api false ex_kittyw frame1 [].
+Proof.
+  constructor.
+  - intros x Hin. destruct Hin.
+  - intros x Hin. destruct Hin.
+  - intros x v Hin. destruct Hin.
+  - intros v Hin. in_cases Hin; reflexivity.
+Qed.
+Example ex_api_wf : forall now,
+  ops_wf 10 false ex_lines ex_kittyw world_init [ORedraw frame1 base0; OApi [] now; ORedraw frame1 base1]
+  /\ ops_wf 10 false ex_lines ex_kittyw world_init [ORedraw frame1 base0; OApi wd0 now; ORedraw frame1 base1].
+Proof.
+  intro now. split.
+  - simpl. split; [split; [exact ex_wf1|intro Hn; exfalso; apply Hn; reflexivity]|].
+    split; [exact ex_wf_api0|]. split; [|exact I].
+    split; [exact ex_wf11|]. apply (count_ok_after_one_api 10 false ex_lines world_init frame1 base0 [] now frame1). constructor.
+  - simpl. split; [split; [exact ex_wf1|intro Hn; exfalso; apply Hn; reflexivity]|].
+    split; [exact ex_wf_api|]. split; [|exact I].
+    split; [exact ex_wf11|]. apply (count_ok_after_one_api 10 false ex_lines world_init frame1 base0 wd0 now frame1). repeat constructor. simpl. tauto.
+Qed.
+Example ex_api_run :
+  forallb (fun now =>
+    forallb (fun ws =>
+      let w := run 10 false true ex_lines [ORedraw frame1 base0; OApi ws now; ORedraw frame1 base1] world_init in
+      plcs_same (t_plcs (w_term w)) (plcs_of ex_lines frame1)) [[]; wd0]) [true; false] = true
+  /\ length (plcs_of ex_lines frame1) = 7.
+Proof. vm_compute. split; reflexivity. Qed.
+
+(** the count hypothesis of [no_ghosts] cannot be dropped: the disguise has THREE states, so
+    three clear_images() between two redraws (or clear_images(w) and two clear_images())
+    delete every image and leave every row's bytes as they were: nothing is written again
+    (observed on the real code as well) *)
+Example no_ghosts_needs_count_hypothesis :
+  let w3 := run 10 false true ex_lines
+              [ORedraw frame1 base0; OApi [] false; OApi [] true; OApi [] false; ORedraw frame1 base1] world_init in
+  let w12 := run 10 false true ex_lines
+              [ORedraw frame1 base0; OApi wd0 false; OApi [] true; OApi [] false; ORedraw frame1 base1] world_init in
+  t_plcs (w_term w3) = [] /\ t_plcs (w_term w12) = [] /\ length (plcs_of ex_lines frame1) = 7.
+Proof. vm_compute. repeat split; reflexivity. Qed.
 
 (** :626-630 before the fix: a canvas that is not a CompositeCanvas is not walked: an
     image canvas drawn as the top-most widget is not remembered, so that nothing deletes it
